@@ -47,6 +47,9 @@ deriving DecidableEq, Repr
 
 def SFS.abs (s : SFS) : FS := ⟨s.inodes, s.dir.abs, s.hist.map SDir.abs, s.openf, s.umask⟩
 
+/-- what a reader of the destination PATH finds (the link is followed) -/
+def SFS.readDest (s : SFS) : Option Bytes := s.abs.readDest
+
 def SFS.setDir (s : SFS) (d : SDir) : SFS := { s with dir := d, hist := s.dir :: s.hist }
 
 /-- events that do not change the directory act on the inode table / the open file exactly as in `FS` -/
